@@ -1,6 +1,7 @@
 package main
 
 import (
+	"sync/atomic"
 	"fmt"
 	"go/ast"
 	"go/token"
@@ -257,6 +258,9 @@ func (e *Engine) VerifyFunc(con *Contract, workdir string, timeoutS int, all boo
 	}
 	res.Notes = dedupe(x.notes)
 	res.Obls = x.obls
+	if res.Unsupported == "" && len(x.vacuous) > 0 && !con.Canary {
+		res.Unsupported = "vacuity: " + strings.Join(dedupe(x.vacuous), "; ")
+	}
 	if res.Unsupported == "" {
 		e.solveUnit(x.w, res, workdir, timeoutS, all)
 	}
@@ -394,6 +398,7 @@ func (e *Engine) solveUnit(w *World, res *UnitResult, workdir string, timeoutS i
 		j.obls = append(j.obls, o)
 	}
 	var wg sync.WaitGroup
+	var sawSat int32 // a definite counterexample in this unit: no long retries for the undecided rest
 	for _, j := range order {
 		wg.Add(1)
 		go func(j *job) {
@@ -444,7 +449,10 @@ func (e *Engine) solveUnit(w *World, res *UnitResult, workdir string, timeoutS i
 					r = r2
 				}
 			}
-			if r.status == "unknown" && !j.vac {
+			if r.status == "sat" && !j.vac {
+				atomic.StoreInt32(&sawSat, 1)
+			}
+			if r.status == "unknown" && !j.vac && atomic.LoadInt32(&sawSat) == 0 {
 				// no answer within the budget: before this is reported as undecided (or, for an
 				// obligation discharged on the pinned tree, as a violation) give the instantiated
 				// query a much longer budget - a loaded machine must not turn into an alarm
